@@ -5,10 +5,10 @@ package engine
 import (
 	"fmt"
 	"regexp"
-	"time"
 	"sort"
 	"strconv"
 	"strings"
+	"time"
 
 	"github.com/juev/hledger-lsp/internal/verifsim/simfs"
 	"github.com/juev/hledger-lsp/internal/verifsim/simrt"
